@@ -29,6 +29,7 @@ def shards(tier, seed):
     out.append({"lane": "peers-file", "tier": tier, "seed": seed})
     out.append({"lane": "crash-peers-syscall", "tier": tier, "seed": seed})
     out.append({"lane": "crash-peers-line", "tier": tier, "seed": seed})
+    out.append({"lane": "real-threads", "tier": tier, "seed": seed})
     return out
 
 
@@ -517,7 +518,7 @@ def run_shard(spec):
         spec = dict(w, tier="quick", seed=0, shard=0)
         spec.setdefault("max_attempts", 4)
         spec["lane"] = {"events": "events", "giveup": "giveup-real-value", "peers-file": "peers-file",
-                        "crash-peers-syscall": "crash-peers-syscall", "crash-peers-line": "crash-peers-line"}.get(w.get("lane"), w.get("lane"))
+                        "crash-peers-syscall": "crash-peers-syscall", "crash-peers-line": "crash-peers-line", "real-threads": "real-threads"}.get(w.get("lane"), w.get("lane"))
     lane = spec["lane"]
     if lane == "events":
         lane_events(a, spec)
@@ -529,6 +530,19 @@ def run_shard(spec):
         lane_crash_syscall(a, spec)
     elif lane == "crash-peers-line":
         lane_crash_syscall(a, spec, by_line=True)
+    elif lane == "real-threads":
+        # auxiliary: the repository's own integration tests (real sockets + threads) with the disjointness monitor attached
+        env.boot()
+        from skv import realsock
+        rep = realsock.run_network_tests()
+        if rep is None:
+            a.inc("real_thread_lane_not_run_cleanly")
+        else:
+            a.inc("real_thread_lane_runs")
+            a.inc("real_thread_disjointness_evaluations", rep["disjoint_evaluations"])
+            a.n += rep["disjoint_evaluations"]
+            for v in rep["disjoint_violations"][:3]:
+                a.v("real-thread-lane:address-both-connected-and-disconnected", v, {"lane": "real-threads"})
     return a.result()
 
 
